@@ -35,6 +35,7 @@ import (
 	"github.com/bronlabs/bron-crypto/pkg/mpc"
 	"github.com/bronlabs/bron-crypto/pkg/mpc/sharing"
 	"github.com/bronlabs/bron-crypto/pkg/mpc/sharing/accessstructures"
+	"github.com/bronlabs/bron-crypto/pkg/mpc/sharing/vss/feldman"
 	"github.com/bronlabs/bron-crypto/pkg/proofs/sigma/compiler"
 	"github.com/bronlabs/bron-crypto/pkg/proofs/sigma/compiler/fiatshamir"
 	"github.com/bronlabs/bron-crypto/pkg/proofs/sigma/compiler/fischlin"
@@ -55,16 +56,22 @@ type cfg struct {
 	nic    compiler.Name // gennaro only
 	e      catalog.Entry
 	ids    catalog.IDAssignment
+	mayRefuse bool // the identifier assignment may lie outside the family's documented domain: a constructor refusal is a correct outcome
+	perParty bool // every party builds its own access-structure object from its own listing (catalog.BuildVariant)
 	runner bool // additionally run the networked runners with the same seeds and compare
 	sign   int  // k256 only: the reloaded shards of a qualified quorum sign (Lindell22 BIP-340). 0: no; 1: the first
 	// qualified quorum with >= 2 members, first seed only; 2: first quorum (quick) / every such quorum (thorough), both seeds
 }
 
 func (c cfg) tag() string {
+	t := c.kg
 	if c.kg == "gennaro" {
-		return "gennaro-" + string(c.nic)
+		t = "gennaro-" + string(c.nic)
 	}
-	return c.kg
+	if c.perParty {
+		t += "/own-listing"
+	}
+	return t
 }
 
 func seeds() []int64 { return []int64{engine.Seed(), engine.Seed() + 1} }
@@ -110,8 +117,30 @@ func (g grp[E, S]) overRunners(x *engine.X, c cfg, ids []sharing.ID, ac accessst
 func (g grp[E, S]) exec(x *engine.X, c cfg) {
 	ids := c.ids.IDs[:c.e.P.N]
 	ac, err := catalog.Build(c.e.P, ids)
+	if err == nil && c.mayRefuse {
+		// the precondition on identifiers is checked where the sharing scheme is built
+		_, err = feldman.NewScheme(g.group, ac)
+	}
+	if err != nil && c.mayRefuse {
+		x.Case(fmt.Sprintf("%s/%s/%s/ids=%s/refused", c.tag(), g.name, c.e.Name, c.ids.Name))
+		x.Trivial()
+		return
+	}
 	if err != nil {
 		panic(engine.HarnessError{Msg: fmt.Sprintf("catalogue policy %s with ids %v refused by the constructor: %v", c.e.Name, ids, err)})
+	}
+	if c.perParty {
+		// party i lists the agreed structure its own way; the dealer (and the embedded default) use listing 0, the
+		// oracle's library calls use the LAST party's object
+		pp := &proto.PerPartyAC{Monotone: ac, By: map[sharing.ID]accessstructures.Monotone{}}
+		for i, id := range ids {
+			v, err := catalog.BuildVariant(c.e.P, ids, i+1)
+			if err != nil {
+				panic(engine.HarnessError{Msg: fmt.Sprintf("catalogue policy %s listing %d refused by the constructor: %v", c.e.Name, i+1, err)})
+			}
+			pp.By[id] = v
+		}
+		ac = pp
 	}
 	tag := c.tag()
 	var pks [][]byte
@@ -124,7 +153,7 @@ func (g grp[E, S]) exec(x *engine.X, c cfg) {
 			st.failf(x, "run/failed", "honest key generation (round by round) failed: %v", err)
 			continue
 		}
-		pk := checkShards(x, g, st, c.e.P, ids, ac, shards)
+		pk := checkShards(x, g, st, c.e.P, ids, proto.ACFor(ac, ids[len(ids)-1]), shards)
 		pks = append(pks, pk)
 		rl := reload(x, st, ids, shards)
 		if rl != nil && (c.sign == 2 || c.sign == 1 && si == 0) {
@@ -164,7 +193,7 @@ func (g grp[E, S]) exec(x *engine.X, c cfg) {
 			if bad {
 				continue
 			}
-			rpk := checkShards(x, g, st.sub("/runner"), c.e.P, ids, ac, out)
+			rpk := checkShards(x, g, st.sub("/runner"), c.e.P, ids, proto.ACFor(ac, ids[len(ids)-1]), out)
 			if !bytes.Equal(rpk, pk) {
 				st.failf(x, "api/pk-differs", "with the same seeds the runner API gives pk=%x, the round-by-round API pk=%x", rpk, pk)
 			}
@@ -287,6 +316,23 @@ func assignments(e catalog.Entry) []catalog.IDAssignment {
 	return out
 }
 
+// perms calls f with every permutation of ids (lexicographic by position).
+func perms(ids []sharing.ID, f func([]sharing.ID)) {
+	var rec func(k int, cur []sharing.ID, used uint)
+	rec = func(k int, cur []sharing.ID, used uint) {
+		if k == len(ids) {
+			f(cur)
+			return
+		}
+		for i := range ids {
+			if used&(1<<uint(i)) == 0 {
+				rec(k+1, append(cur, ids[i]), used|1<<uint(i))
+			}
+		}
+	}
+	rec(0, nil, 0)
+}
+
 type gc struct {
 	g anyGroup
 	c cfg
@@ -336,7 +382,7 @@ func chooseConfig(x *engine.X, n, procs int) int {
 }
 
 func TestCheck(t *testing.T) {
-	engine.Rule("one execution = one (key generation, group, compiler, access structure, identifier assignment[, API]) configuration run with two seeds; the sections take the slices of DESIGN §5 C03 completely: (1) every catalogue structure (threshold, unanimity, labelled CNF, hierarchical <=3 levels, boolexpr) with n<=3 (thorough n<=4 and T(4,7)) on k256/Fiat–Shamir x {Gennaro, Canetti, dealer}; (2) all 7 groups x {Gennaro x 3 compilers, Canetti, dealer} on T(2,3); (3) every identifier assignment in the documented domain x {T(2,3), cnf3{0|12}} (thorough: + hierarchical, non-ideal boolexpr) x 3 kg; (4) the same slices (2),(3) through the networked runners under the scheduler, compared with the round-by-round run of the same seeds; (5) Lindell17 dealer / DKG. Inside an execution EVERY non-empty subset of shareholders is an inner case. A configuration is non-trivial when keys were produced and every subset was evaluated.")
+	engine.Rule("one execution = one (key generation, group, compiler, access structure, identifier assignment[, API]) configuration run with two seeds; the sections take the slices of DESIGN §5 C03 completely: (1) every catalogue structure (threshold, unanimity, labelled CNF, hierarchical <=3 levels, boolexpr) with n<=3 (thorough n<=4 and T(4,7)) on k256/Fiat–Shamir x {Gennaro, Canetti, dealer}; (2) all 7 groups x {Gennaro x 3 compilers, Canetti, dealer} on T(2,3); (3) every identifier assignment in the documented domain x {T(2,3), cnf3{0|12}} (thorough: + hierarchical, non-ideal boolexpr) x 3 kg; (4) the same slices (2),(3) through the networked runners under the scheduler, compared with the round-by-round run of the same seeds; (5) Lindell17 dealer / DKG; (6) every catalogue CNF (>= 2 clauses), hierarchical, threshold and unanimity structure where party i builds its OWN access-structure object from its own listing (clause list rotated by i and reversed for odd i, set members listed in reverse) x {Gennaro, Canetti, dealer}; (7) every hierarchical structure under every permutation of three identifier pools ({1,2,3,4}, {2,4,6,9}, {3,7,64,10}) on the parties x {Gennaro, dealer}: either the scheme constructor refuses the placement or the whole oracle applies. Inside an execution EVERY non-empty subset of shareholders is an inner case. A configuration is non-trivial when keys were produced and every subset was evaluated.")
 	engine.Assume("all parties honest, default schedule and FIFO delivery for the runner sections (C11/C04 own the rest)", "reference models verifmc/ref/curve, ref/linalg, ref/policy and math/big are correct", "two seeds per configuration (engine seed, +1); 'independent keys' is checked as 'different public keys'", "Paillier decryption of the Lindell17 auxiliary ciphertexts uses the library (C16 owns Paillier)", "purego build; SCHED overlay for the runner sections")
 	buildCatalogue()
 	fs := fiatshamir.Name
@@ -431,4 +477,43 @@ func TestCheck(t *testing.T) {
 
 	// (5) Lindell17
 	lindell17Sections()
+
+	// (7) hierarchical structures under EVERY placement of three identifier pools on the parties (inside and outside the
+	// documented ordering precondition): the constructor either refuses the placement, or key generation must satisfy
+	// the whole oracle (in particular: every qualified set reconstructs)
+	{
+		pools := [][]sharing.ID{{1, 2, 3, 4}, {2, 4, 6, 9}, {3, 7, 64, 10}}
+		var l []gc
+		for _, e := range dkgStructs {
+			if e.P.Kind != policy.Hierarchical || e.P.N > 4 {
+				continue
+			}
+			for pi, pool := range pools {
+				perms(pool[:e.P.N], func(ids []sharing.ID) {
+					a := catalog.IDAssignment{Name: fmt.Sprintf("pool%d%v", pi, ids), IDs: append([]sharing.ID{}, ids...), Max64: true}
+					for _, k := range []cfg{{kg: "gennaro", nic: fs}, {kg: "dealer"}} {
+						k.e, k.ids, k.mayRefuse = e, a, true
+						l = append(l, gc{gK256, k})
+					}
+				})
+			}
+		}
+		explore("hierarchical-any-placement/k256", l, engine.Opts{Budget: engine.Budget(4*time.Minute, 10*time.Minute)})
+	}
+
+	// (6) every party builds its own access-structure object from its own listing of the agreed structure (clause
+	// order, order inside sets): the families that promise a canonical span programme must still agree
+	{
+		var l []gc
+		for _, e := range dkgStructs {
+			if e.P.Kind == policy.BoolExpr || (e.P.Kind == policy.CNF && len(e.P.MUS) < 2) {
+				continue // a tree IS its listing; a one-clause CNF has one listing
+			}
+			for _, k := range []cfg{{kg: "gennaro", nic: fs}, {kg: "canetti"}, {kg: "dealer"}} {
+				k.e, k.ids, k.perParty = e, ord(e.P.N), true
+				l = append(l, gc{gK256, k})
+			}
+		}
+		explore("own-listings/k256", l, engine.Opts{Budget: engine.Budget(4*time.Minute, 10*time.Minute)})
+	}
 }
